@@ -83,6 +83,11 @@ def wrapped (bases : List Ancestry) (own : FwMap) (classdict : List String) : Fw
 
 def isFirewalled (m : FwMap) (attr : String) : Bool := m.any (fun p => p.1 == attr)
 
+/-- the error handlers `IrcCallback.__firewalled__` gives `inFilter` / `outFilter` return the message
+unchanged (`lambda self, irc, msg: msg`); `none` when the map names no handler for `attr` -/
+def passHandler (fw : FwMap) (attr : String) : Option (Outcome Bool) :=
+  if fw.lookup attr = some true then some (.ret true) else none
+
 /-! ### `Irc.feedMsg`: which stages run, and whether it returns -/
 
 /-- what the code reached by `feedMsg(msg)` does — parameters of the model -/
@@ -136,7 +141,7 @@ def inFilterLoop : Nat → List (Outcome Bool) → List Stage × Outcome Bool
     -- `inFilter` is firewalled with an error handler that returns the message unchanged
     let seen : Outcome Bool :=
       if isFirewalled Gen.ircCallbackFirewalled "inFilter" then
-        match firewall o (some (.ret true)) with
+        match firewall o (passHandler Gen.ircCallbackFirewalled "inFilter") with
         | .ret (some b) => .ret b
         | .ret none => .ret false
         | .raise e => .raise e
@@ -191,7 +196,7 @@ def outFilterLoop : List (Outcome Bool) → Outcome Bool
   | o :: rest =>
     let seen : Outcome Bool :=
       if isFirewalled Gen.ircCallbackFirewalled "outFilter" then
-        match firewall o (some (.ret true)) with
+        match firewall o (passHandler Gen.ircCallbackFirewalled "outFilter") with
         | .ret (some b) => .ret b
         | .ret none => .ret false
         | .raise e => .raise e
